@@ -137,7 +137,9 @@ func genC06(r *rand.Rand, n int, emit func(string)) {
 			hash = opb.B64E(raw)
 			label = "digest-bitflip"
 		case 13: // not canonicalizable value (scalar at top level / malformed text)
-			text = pick(r, []string{"1", `"x"`, "null", "{", `{"a":1,"a":2}`, "true", "1.5", `"abc"`})
+			text = pick(r, []string{"1", `"x"`, "null", "{", `{"a":1,"a":2}`, "true", "1.5", `"abc"`,
+				// escaped surrogates that are not a pair: two texts encoding/json reads as different strings
+				`{"k":"\ud800\u0061"}`, `{"k":"\ud800\u0062"}`, `{"k":"\udc00\ud800"}`, `{"\ud83d\u0041":1}`, `["\ud800x"]`, `["\udfff"]`})
 			label = "bad-value"
 			if text != "{" && text[0] != '{' {
 				label = "scalar-value" // a JSON value all the same
